@@ -7,7 +7,7 @@ that an in-place edit would leave stale); the derived views the renderers use ar
 from __future__ import annotations
 
 import ast
-from typing import Dict, List, Set
+from typing import Dict, List, Set, Tuple
 
 from ..core import Collector, guarded, norm, Unrecognised
 from ..pyindex import walk_no_nested, FuncInfo, access_path
@@ -188,6 +188,50 @@ def run(ctx, col: Collector):
                 col.obs.append(type(o)(col.prop, 'C10-links', o.construct, o.status, o.msg, o.file, o.line, o.extra))
         col.floor('C10-links', 'link obligations', n, 8)
     guarded(col, 'C10-links', 'links', links)
+
+    def round_trips():
+        """A renderer that holds an element X and reads `X.note.parent` (down to a sub-object and back up through its back-pointer) names the LAST holder the sub-object
+        was assigned to, not X: after `a.note = n; b.note = n` both columns are rendered as b.  The (attribute, back-pointer) pairs are read off the model classes:
+        a method that stores a value in `self.<a>` and sets `<value>.<b> = self`."""
+        from .common import expanded
+        idx = ctx.idx
+        pairs: Dict[Tuple[str, str], str] = {}
+        for ci in idx.classes.values():
+            if not ci.module.startswith(('pydbml._classes', 'pydbml.database')):
+                continue
+            for m in list(ci.methods.values()) + [s_ for s_ in getattr(ci, 'setters', {}).values()]:
+                if not isinstance(m.node, ast.FunctionDef):
+                    continue
+                backs = [(n.targets[0].value.id, n.targets[0].attr) for n in ast.walk(m.node) if isinstance(n, ast.Assign) and len(n.targets) == 1
+                         and isinstance(n.targets[0], ast.Attribute) and isinstance(n.targets[0].value, ast.Name) and isinstance(n.value, ast.Name) and n.value.id == 'self']
+                stores = [(n.value.id, n.targets[0].attr) for n in ast.walk(m.node) if isinstance(n, ast.Assign) and len(n.targets) == 1
+                          and isinstance(n.targets[0], ast.Attribute) and isinstance(n.targets[0].value, ast.Name) and n.targets[0].value.id == 'self'
+                          and isinstance(n.value, ast.Name)]
+                for v, b in backs:
+                    for v2, a in stores:
+                        if v == v2:
+                            pairs[(a.lstrip('_'), b)] = f'{ci.name}.{m.node.name}'
+        col.stat('sub_object_back_pointers', sorted(f'.{a} <-> .{b} ({w})' for (a, b), w in pairs.items()))
+        col.floor('C10-links', 'sub-object/back-pointer pairs read off the model classes', len(pairs), 1)
+        hits = 0
+        n_fn = 0
+        for fi in idx.all_funcs():
+            if not fi.module.startswith('pydbml.renderer.') or not isinstance(fi.node, ast.FunctionDef):
+                continue
+            n_fn += 1
+            fx = expanded(ctx, fi.module, fi.qualname)
+            for n in ast.walk(fx.node):
+                if isinstance(n, ast.Attribute) and isinstance(n.value, ast.Attribute) and (n.value.attr, n.attr) in pairs \
+                        and isinstance(n.value.value, (ast.Name, ast.Attribute, ast.Subscript)):
+                    hits += 1
+                    holder = norm(n.value.value)
+                    col.bad('C10-links', f'{fi.qualname}:{n.value.attr}.{n.attr}', f'{fi.qualname} reads `{norm(n)[:60]}` - from `{holder}` down to its {n.value.attr} and back '
+                            f'through the back-pointer `{n.attr}` ({pairs[(n.value.attr, n.attr)]} sets it): that is the last object the {n.value.attr} was assigned to, not '
+                            f'necessarily `{holder}`; after the same {n.value.attr} object is given to two elements the rendering names the wrong one', node=n, file=fi.file)
+                    break
+        col.check(hits == 0, 'C10-links', 'renderers:no-round-trip-through-back-pointers', f'no renderer ({n_fn} functions, helpers read in place) identifies the element '
+                  f'it renders through a sub-object\'s back-pointer', f'{hits} renderers go down to a sub-object and back up through its back-pointer')
+    guarded(col, 'C10-links', 'round-trips', round_trips)
 
     def presence_tests():
         # A fresh build maps an empty value to None (`self.name = name if name else None`), an in-place edit (`ref.name = ''`) does not: the attribute is a plain
